@@ -62,6 +62,8 @@ func (m *RWMutex) Lock(ctx context.Context, write bool) (func(), error) {
 				// 0: waiting for lock
 				if write {
 					m.writeWaiting--
+					// readers that queued up behind this writer may be grantable now
+					broadcast()
 				}
 			} else {
 				// 1: we have the lock
